@@ -59,6 +59,7 @@ package util
 //@   ensures forall t string :: contains(s.moduleIgnores, t) <==> (contains(old(s.moduleIgnores), t) || contains(codes, t))
 //@   ensures old(s.Initialized) ==> s.Markers == old(s.Markers)
 //@   ensures !old(s.Initialized) ==> len(s.Markers) == 0
+//@   ensures s.CodeIndex != nil && (old(s.Initialized) ? s.CodeIndex == old(s.CodeIndex) : fresh(s.CodeIndex))
 //@   ensures forall c string, p token.Pos :: eff(s, c, p) <==> (old(eff(s, c, p)) || (exists t string :: inHier(t, c) && contains(codes, t)))
 
 //@ func IgnoreSet.Len
@@ -82,6 +83,7 @@ package util
 //@   let n0 = old(s.Initialized) ? old(len(s.Markers)) : 0
 //@   ensures s.Initialized && isetInv(s)
 //@   ensures len(s.Markers) == n0 + 1
+//@   ensures s.CodeIndex != nil && (old(s.Initialized) ? s.CodeIndex == old(s.CodeIndex) : fresh(s.CodeIndex))
 //@   ensures forall i int :: 0 <= i && i < n0 ==> s.Markers[i] == old(s.Markers)[i]
 //@   ensures s.Markers[n0].Codes == annotation.GetCodes() && s.Markers[n0].StartPos == annotation.GetStartPos() && s.Markers[n0].EndPos == annotation.GetEndPos()
 //@   ensures s.moduleIgnores == old(s.moduleIgnores)
